@@ -194,7 +194,7 @@ func init() {
 		Level: "exploration",
 		Rule: "metamorphic monitor (layout A vs layout B): each program gets a canonical rendering and k hostile ones: every separator kind (SP TAB VT FF CR LF CRLF U+0085 U+00A0, none where tokens may touch), comments with quotes/keywords/#/non-ASCII/raw bytes/NUL ended by CR, LF or end of input, ';' added after any statement and dropped where the next one cannot continue it, redundant parentheses around arbitrary sub-expressions. " +
 			"Compared with the canonical rendering: code and constants (from the program's parts), output, blocks, binding, error and diagnostic classes (positions excluded). Rejected programs (token-damaged) get whitespace/comment variation only. String literals with '#', ';', parentheses and every whitespace kind inside must reach the value byte for byte. " +
-			"distinct = hash of rendering; non-trivial = rendering differs from the canonical one and the pair was compared",
+			"distinct = hash of rendering; non-trivial = rendering differs from the canonical one and the pair was compared Also: every rendering is parsed through ParseFile in 1-3 random chunks and must compile to the same code; value-less literals and block names are generated and a rejected program must stay rejected under parenthesis / ';' variation; 70000-byte comments and whitespace runs (whole and through 4096-byte pages), 100..4000 redundant parentheses.",
 		Assumptions:   []string{"whole-input Parse (chunking is C07's matter)", "the independent separator-needed predicate decides where tokens may touch"},
 		MinNontrivial: 1000,
 		Run: func(c *core.Ctx) {
@@ -677,7 +677,7 @@ func init() {
 		Rule: "position monitor: (i) decode check on every diagnostic with the harness's own newline index: L:C designates an offset of the source, L-1 newlines precede it, the quoted token is the source text ending exactly there, 'at end' is the end of input; (ii) prediction check: first compile diagnostic at the end of the first non-viable token (independent recognizer), runtime errors and warnings at the end of the last token of the failing operation (reference model + renderer's token spans); " +
 			"(iii) the program's line table equals the newline offsets of the source, one position per code byte, each a token end; (iv) the same diagnostics, positions and line table under chunked ParseFile, the same runtime error after dump and load. " +
 			"Workload: generated programs (runtime errors and warnings at every statement), token-damaged programs (compile errors everywhere), rendered with hostile multi-line layout (blank lines, CR LF, CR-only, comments, multi-byte characters before the error) and padded by 0/250/2300/4100/8200/68000 bytes so that offsets cross the read page and every varint class. " +
-			"distinct = hash of source; non-trivial = at least one position decoded or predicted",
+			"distinct = hash of source; non-trivial = at least one position decoded or predicted Also: 34 programs failing exactly at the operand-stack limit with the position expected at the operand whose push finds the stack full; value-less block names (the diagnostic must sit at the name); the dump/load route alternates LoadProg with Prog.Load into a Prog that held another program.",
 		Assumptions:   []string{"DESIGN §5.4 'Positions' is the location rule"},
 		MinNontrivial: 1000,
 		Run: func(c *core.Ctx) {
